@@ -350,6 +350,13 @@ namespace pika::threads::detail {
                                 // and add to aggregate execution time.
                                 exec_time_wrapper exec_time_collector(idle_rate);
 
+                                // Record the worker before the phase runs: a waker may read
+                                // get_last_worker_thread_num() (do_resume, set_active_state) as soon
+                                // as the thread has published itself, i.e. before do_yield stores it.
+                                // A stale size_t(-1) means "no hint" (round robin) and moves the
+                                // thread to another worker even with a static scheduling policy.
+                                thrdptr->set_last_worker_thread_num(num_thread);
+
 #if defined(PIKA_HAVE_APEX)
                                 // get the APEX data pointer, in case we are resuming the
                                 // thread and have to restore any leaf timers from
